@@ -1975,6 +1975,11 @@ fn generate_autocoerce(
 	llvm: &mut Generator,
 ) -> Result<LLVMValueRef, anyhow::Error>
 {
+	// Parentheses do not change what is being coerced.
+	if let Expression::Parenthesized { inner } = expression
+	{
+		return generate_autocoerce(inner, coerced_type, llvm);
+	}
 	match coerced_type
 	{
 		ValueType::Slice { element_type } => match expression
